@@ -39,10 +39,10 @@ DEVIATIONS = ("heightback", "keyquirk", "nomismatch", "nowitness", "votetwice", 
 #                       block is stored; heights before the oldest key-cache entry; roots ahead of the local height)
 #   VoteDesignated      a node votes for the designating block itself with its key / index of the NEW set
 #   MismatchNotRelayed  a well-signed root that differs from the local one is logged and handed on (handler returns nil)
-#   EmitStaleSet        an incomplete root created by a vote that arrives before the node stored the designating block keeps the
-#                       previous validator list; the node then broadcasts its local root with a complete witness of THAT set
-#                       (receivers refuse it; scripted world early-vote, and naturally when a node lags at a change)
-EXPECTED_BEYOND = {"beyond:AcceptedGood", "beyond:VoteDesignated", "beyond:MismatchNotRelayed", "beyond:EmitStaleSet"}
+# (beyond:EmitStaleSet - a node broadcasting its local root with a complete witness of a set designated EARLIER than the one in
+#  force, because the incomplete root was created by a vote that arrived before the designating block - was found by this
+#  extension and repaired in /repo ec75270; the scripted world early-vote is its regression: not expected any more)
+EXPECTED_BEYOND = {"beyond:AcceptedGood", "beyond:VoteDesignated", "beyond:MismatchNotRelayed"}
 EXPECTED_BEYOND_IN = {}
 
 
@@ -160,6 +160,14 @@ def run_ext(ctx):
         violation(ctx, sig, {"what": "abstract predicate %s false after %s of node %s in world %s (real stateroot module / service)"
                                      % (w[2:], op, ev.get("n"), world),
                              "event": small(ev), "history": [small(e) for e in events[s:li + 1]][-40:]})
+    # what the scripted worlds observed about PROGRESS (a complete set of good votes at the sender assembles the root,
+    # also after a refused root): liveness, beyond the statement
+    for d in res.get("drift") or []:
+        if "observed" in d and "(expected)" not in d["observed"]:
+            w = "beyond:Progress"
+            beyond[w] = beyond.get(w, 0) + 1
+            unexpected[w] = unexpected.get(w, 0) + 1
+            examples.setdefault(w, (d.get("world", ""), {"observed": d["observed"]}, False))
     # observations beyond the statement of C03: named, counted, never verdicts
     for w in sorted(beyond):
         world, ev, exp = examples[w]
@@ -231,7 +239,9 @@ def selftest(ctx, events):
             if not any(v["h"] == rec["h"] for v in st.get("val", [])):
                 done["refused"] = (i, dict(e, st=dict(st, val=st["val"] + [rec])), "J:RefusedKeepsRoots")
     need = {"stored", "witness", "height", "emitroot", "vote", "refused"}
-    if need - set(done):
+    # (a changed tree may leave no place for one or two of them - e.g. nothing is refused, no root is ever assembled)
+    ctx.extra["statesvc_binding_selftests_missing"] = sorted(need - set(done))
+    if len(done) < 4 or not ({"stored", "emitroot", "vote", "refused"} & set(done)):
         raise vlib.Inconclusive("state service self-test could not find places to corrupt the trace (missing %s)" % sorted(need - set(done)))
     segs, expect_at = [], {}
     for name, (i, bad, expect) in sorted(done.items()):
